@@ -619,8 +619,9 @@ fn run_decode_variant(st: &State, t: &mut Toks, dribble: bool) -> PResult<String
     })))
 }
 
-/// XM <dict> <n> <f1> .. <fn>: the frames sit back to back in ONE reader and are decoded one after the other (a relay
-/// reading a capture file, a test reading several messages from one buffer); the observation is that of the LAST one.
+/// XM <dict> <n> <f1> .. <fn>: the frames sit back to back in ONE reader and are decoded one after the other, each from where
+/// the previous decode left the reader (a tool reading a capture file, a test reading several messages from one buffer); the
+/// observation is that of the LAST one.  Only used with frames that are consumed to their last octet when decoded alone.
 fn run_decode_multi(st: &State, t: &mut Toks) -> PResult<String> {
     let dict = st.dicts.get(t.next()?).ok_or_else(|| "unknown dict".to_string())?.clone();
     let n = t.usize_dec()?;
@@ -633,13 +634,12 @@ fn run_decode_multi(st: &State, t: &mut Toks) -> PResult<String> {
     let r = catch_unwind(AssertUnwindSafe(|| {
         let mut cur = Cursor::new(buf);
         let mut last = None;
-        for (i, e) in ends.iter().enumerate() {
-            // each frame is read from where it starts: the reader is put there (a caller that knows the frame boundaries)
-            cur.set_position(if i == 0 { 0 } else { ends[i - 1] });
+        for _ in ends.iter() {
+            // each decode starts where the previous one left the reader
             let r = DiameterMessage::decode_from(&mut cur, Arc::clone(&dict));
             let failed = r.is_err();
             last = Some(r);
-            if failed || cur.position() > *e {
+            if failed {
                 break;
             }
         }
